@@ -41,6 +41,11 @@ def cached_functions(proj):
                         stores = n.value.id
                     else:
                         reads = n.value.id
+                if isinstance(n, ast.Call) and isinstance(n.func, ast.Attribute) and n.func.attr in ('get', 'setdefault') and isinstance(n.func.value, ast.Name) \
+                        and n.func.value.id in dicts:
+                    reads = n.func.value.id
+                    if n.func.attr == 'setdefault':
+                        stores = n.func.value.id
             if stores and reads and stores == reads:
                 out[q] = f'module-level memo dict {stores}'
     return out
